@@ -47,4 +47,72 @@ theorem selectNext_eq (k : Nat) (screen : List Plate) (ids : List Int) :
   unfold selectNext eligibleOf
   rw [batchPlatesRaw_eq, candidatesRaw_eq]
 
+/-! ### the returned plate -/
+
+theorem firstMin_fold_mem (l : List (Nat × Int)) (acc : Option (Nat × Int)) (b : Nat × Int)
+    (h : l.foldl minStep acc = some b) : b ∈ l ∨ acc = some b := by
+  induction l generalizing acc with
+  | nil => exact Or.inr h
+  | cons e l ih =>
+    rw [List.foldl_cons] at h
+    rcases ih _ h with hm | hacc
+    · exact Or.inl (List.mem_cons_of_mem _ hm)
+    · cases acc with
+      | none =>
+        simp only [minStep] at hacc
+        exact Or.inl (by rw [← Option.some.inj hacc]; exact List.mem_cons_self)
+      | some a =>
+        simp only [minStep] at hacc
+        split at hacc
+        · exact Or.inl (by rw [← Option.some.inj hacc]; exact List.mem_cons_self)
+        · exact Or.inr hacc
+
+theorem firstMin_mem {l : List (Nat × Int)} {b : Nat × Int} (h : firstMin l = some b) : b ∈ l := by
+  rcases firstMin_fold_mem l none b h with hm | hn
+  · exact hm
+  · cases hn
+
+theorem fold_some (l : List (Nat × Int)) (x : Nat × Int) : ∃ y, l.foldl minStep (some x) = some y := by
+  induction l generalizing x with
+  | nil => exact ⟨x, rfl⟩
+  | cons e l ih =>
+    rw [List.foldl_cons]
+    simp only [minStep]
+    split
+    · exact ih e
+    · exact ih x
+
+/-- whatever the scores are -- all equal, tied between allowed and non-allowed plates, in any storage order -- the id that comes
+    back is one of the allowed ids (and an id of the table) -/
+theorem argminAllowed_mem {table : List (Nat × Int)} {allowed : List Nat} {i : Nat}
+    (h : argminAllowed table allowed = some i) : i ∈ allowed ∧ ∃ sc, (i, sc) ∈ table := by
+  unfold argminAllowed at h
+  cases hf : firstMin (table.filter (fun e => allowed.contains e.1)) with
+  | none => rw [hf] at h; cases h
+  | some b =>
+    rw [hf] at h
+    have hi : b.1 = i := by simpa using h
+    obtain ⟨hb1, hb2⟩ := List.mem_filter.1 (firstMin_mem hf)
+    refine ⟨by rw [← hi]; simpa using hb2, b.2, ?_⟩
+    rw [← hi]; exact hb1
+
+/-- a non-empty masked table has an argmin -/
+theorem argminAllowed_some {table : List (Nat × Int)} {allowed : List Nat}
+    (h : ∃ e ∈ table, e.1 ∈ allowed) : ∃ i, argminAllowed table allowed = some i := by
+  obtain ⟨e, he, hea⟩ := h
+  have hne : table.filter (fun e => allowed.contains e.1) ≠ [] := by
+    intro hnil
+    have : e ∈ table.filter (fun e => allowed.contains e.1) := List.mem_filter.2 ⟨he, by simpa using hea⟩
+    rw [hnil] at this; cases this
+  unfold argminAllowed
+  cases hl : table.filter (fun e => allowed.contains e.1) with
+  | nil => exact absurd hl hne
+  | cons a l =>
+    unfold firstMin
+    rw [List.foldl_cons]
+    obtain ⟨y, hy⟩ := fold_some l a
+    have e0 : minStep none a = some a := rfl
+    rw [e0, hy]
+    exact ⟨y.1, rfl⟩
+
 end Batchie.Lemmas.PolicyGlue
